@@ -140,6 +140,7 @@ struct cpu *(*const c04_keep_get_cpu)(struct loom *, int) = loom_get_cpu;
 #define GHOST_FRAME g_cb_calls, g_cb_fails, g_cpu_fails, CPU_LOG_FRAME, DIAG_FRAME
 
 int w_state, w_v, w_cpu_index, w_has_cpu_h;
+int w_loom_same;             /* replay: the loom hands out the thread's current CPU */
 unsigned long w_payload_size, w_ncpus;
 
 /* ======================= pause / resume / cool / warm ======================= */
@@ -231,7 +232,8 @@ SIMPLE_HARNESS(pre_thread_end, LEGAL_E)
 int c_pre_thread_execute(struct emu *emu, struct thread *th)
 __CPROVER_requires(EV_PRE(emu) && TH_PRE(th) && LOOM_CPU_PRE(th) && CNT_PRE_H)
 __CPROVER_requires(WBIND(pre_thread_execute, w_state == (int) th->state && w_payload_size == emu->ev->payload_size &&
-	w_ncpus == emu->loom->ncpus && (emu->ev->payload_size < 4 || w_cpu_index == emu->ev->payload->i32[0])))
+	w_ncpus == emu->loom->ncpus && (emu->ev->payload_size < 4 || w_cpu_index == emu->ev->payload->i32[0]) &&
+	w_loom_same == (th->cpu != NULL && g_loom_cpu == th->cpu)))
 __CPROVER_assigns(th->state != TH_ST_RUNNING && PAYLOAD_OK(emu): g_got_cpu)
 __CPROVER_assigns(th->state != TH_ST_RUNNING && CPU_OK(emu) && th->cpu == NULL: TH_FRAME_STATE(th), TH_FRAME_CPU(th), CPU_FRAME(g_loom_cpu))
 __CPROVER_assigns(GHOST_FRAME)
@@ -266,7 +268,8 @@ int c_pre_thread(struct emu *emu)
 __CPROVER_requires(EV_PRE(emu) && TH_PRE(emu->thread) && LOOM_CPU_PRE(emu->thread) && CNT_PRE_H)
 __CPROVER_requires(WBIND(pre_thread, w_state == (int) emu->thread->state && w_v == emu->ev->v &&
 	w_payload_size == emu->ev->payload_size && w_ncpus == emu->loom->ncpus &&
-	(emu->ev->payload_size < 4 || w_cpu_index == emu->ev->payload->i32[0])))
+	(emu->ev->payload_size < 4 || w_cpu_index == emu->ev->payload->i32[0]) &&
+	w_loom_same == (emu->thread->cpu != NULL && g_loom_cpu == emu->thread->cpu)))
 __CPROVER_assigns(EVV(emu) == 'x' && PAYLOAD_OK(emu): g_got_cpu)
 __CPROVER_assigns(LEGAL(EVV(emu), emu->thread->state) && (EVV(emu) != 'x' || CPU_OK(emu)): TH_FRAME_STATE(emu->thread))
 __CPROVER_assigns(LEGAL(EVV(emu), emu->thread->state) && (EVV(emu) == 'e' || (EVV(emu) == 'x' && CPU_OK(emu))): TH_FRAME_CPU(emu->thread))
